@@ -82,6 +82,12 @@ theorem argparse_table :
        { flags := ["input"], dest := "input", storeTrue := false, positional := true, dflt := "None" },
        { flags := ["output"], dest := "output", storeTrue := false, positional := true, dflt := "None" }] := by decide
 
+/-- option values are passed to the API verbatim: no `add_argument` call installs a `type=` conversion, a `choices=`
+restriction, `nargs=`, `const=` or `required=` (so e.g. a format name is neither normalised nor pre-validated by the CLI) -/
+theorem argparse_verbatim :
+    ApiFlow.argparseTable.all (fun row => row.all (fun s =>
+      !(sw s "type=" || sw s "choices=" || sw s "nargs=" || sw s "const=" || sw s "required="))) = true := by decide
+
 /-- does a term contain a `try`? -/
 def hasTry : Stmt → Bool
   | .seq a b => hasTry a || hasTry b
